@@ -115,3 +115,48 @@ package types
 //@     invariant shifted: (removed && 0 <= k && k < len(old(*a)) && heq(old((*a)[k]), h) && forall(i, 0, k, !heq(old((*a)[i]), h))) ==> forall(i, 0, k, heq((*a)[i], old((*a)[i]))) && forall(i, k, rangeindex, heq((*a)[i], old((*a)[i+1])))
 //@     invariant suffix: forall(i, 0, len(old(*a)), i > rangeindex ==> heq((*a)[i], old((*a)[i])))
 //@     invariant frame: frame_only(*a, elems(*a))
+
+// ---- C10: the checkpoint copy of the raw storage entries shares nothing with the original ----
+//@ func (*StateKeyVals).DeepCopy
+//@   props C10
+//@   ghost gi int
+//@   ghost gj int
+//@   requires nonnil: origin != nil
+//@   requires valid: forall(i, 0, len(*origin), allocated((*origin)[i].Value))
+//@   ensures len: len(result) == len(*origin) && (fresh(result) || len(*origin) == 0)
+//@   ensures keys: forall(i, 0, len(*origin), result[i].Key == (*origin)[i].Key)
+//@   ensures owned: forall(i, 0, len(*origin), len(result[i].Value) == len((*origin)[i].Value) && fresh(result[i].Value))
+//@   ensures content: 0 <= gi && gi < len(*origin) && 0 <= gj && gj < len((*origin)[gi].Value) ==> result[gi].Value[gj] == (*origin)[gi].Value[gj]
+//@   loop rangeindex#0
+//@     invariant range: rangeindex >= -1 && rangeindex < len(*origin) && len(copiedStateKeyVals) == len(*origin) && fresh(copiedStateKeyVals)
+//@     invariant keys: forall(i, 0, rangeindex+1, copiedStateKeyVals[i].Key == (*origin)[i].Key)
+//@     invariant owned: forall(i, 0, rangeindex+1, len(copiedStateKeyVals[i].Value) == len((*origin)[i].Value) && fresh(copiedStateKeyVals[i].Value) && allocated(copiedStateKeyVals[i].Value))
+//@     invariant input: forall(i, 0, len(*origin), !fresh((*origin)[i].Value))
+//@     invariant content: 0 <= gi && gi <= rangeindex && 0 <= gj && gj < len((*origin)[gi].Value) ==> copiedStateKeyVals[gi].Value[gj] == (*origin)[gi].Value[gj]
+//@     invariant frame: frame_only()
+
+// every status list and every storage value reachable from the copy was allocated by the copy (so a later in-place
+// write on either side cannot be seen through the other): the "mutations after a checkpoint never leak" clause for
+// the per-account dictionaries. own_acct(a): the dictionaries of account value a and everything stored in them are new.
+//@ pred own_acct(a) = fresh(a.LookupDict) && fresh(a.StorageDict) && allkeys(lk, a.LookupDict, fresh(a.LookupDict[lk])) && allkeys(sk, a.StorageDict, fresh(a.StorageDict[sk]))
+//@ pred old_acct(a) = allocated(a.LookupDict) && allocated(a.StorageDict)
+//@ func (*PartialStateSet).DeepCopy
+//@   props C10
+//@   requires nonnil: origin != nil
+//@   ensures fresh_maps: fresh(result.ServiceAccounts)
+//@   ensures owned: allkeys(sid, result.ServiceAccounts, own_acct(result.ServiceAccounts[sid]))
+//@   opt skipcover=1
+//@   loop #0
+//@     invariant frame: frame_only() && fresh(copiedServiceAccounts)
+//@     invariant owned: allkeys(sid, copiedServiceAccounts, own_acct(copiedServiceAccounts[sid]) && old_acct(copiedServiceAccounts[sid]))
+//@   loop rangeindex#0
+//@     invariant frame: frame_only() && rangeindex >= -1 && rangeindex < len(origin.Authorizers) && len(copiedAuthorizers) == len(origin.Authorizers) && fresh(copiedAuthorizers)
+//@     invariant owned: allkeys(sid, copiedServiceAccounts, own_acct(copiedServiceAccounts[sid]))
+//@   loop #2
+//@     invariant frame: frame_only() && fresh(copiedServiceAccounts) && fresh(copiedAccount.LookupDict)
+//@     invariant owned: allkeys(sid, copiedServiceAccounts, own_acct(copiedServiceAccounts[sid]) && old_acct(copiedServiceAccounts[sid]) && copiedServiceAccounts[sid].LookupDict != copiedAccount.LookupDict)
+//@     invariant cur: allkeys(lk, copiedAccount.LookupDict, fresh(copiedAccount.LookupDict[lk]))
+//@   loop #3
+//@     invariant frame: frame_only() && fresh(copiedServiceAccounts) && fresh(copiedAccount.LookupDict) && fresh(copiedAccount.StorageDict)
+//@     invariant owned: allkeys(sid, copiedServiceAccounts, own_acct(copiedServiceAccounts[sid]) && old_acct(copiedServiceAccounts[sid]) && copiedServiceAccounts[sid].StorageDict != copiedAccount.StorageDict)
+//@     invariant cur: allkeys(lk, copiedAccount.LookupDict, fresh(copiedAccount.LookupDict[lk])) && allkeys(sk, copiedAccount.StorageDict, fresh(copiedAccount.StorageDict[sk]))
